@@ -1,5 +1,7 @@
 """C10 (selection-set level) — the selected map of selection.rs vs. set semantics on (run, index) keys."""
 ID = "C10"
+SUBMODULES = ["c10s"]          # session-level stream: real Model sessions, see c10s.py / session.py
+EXTRA_PROPS = ["C10Session"]   # session-level theorems (Props/C10Session.lean)
 N_QUICK, N_THOROUGH = 6000, 300000
 RULE = ("random selection histories (<= 80 ops) over run changes (4 command strings incl. the empty one), clear, batches of "
         "matched items (unique text per (run, index), unique ranks, sorted / --no-sort / --tac lists, optional "
@@ -197,7 +199,7 @@ def classify(r):
 
 TECHNIQUE = ("Lean 4 proof that the BTreeMap-based selection code of selection.rs implements set semantics on (run, index) keys "
              "(all actions, all histories) + op-sequence correspondence against the real Selection and global::mark_new_run")
-LEVEL_TEXT = ("Selection-set level of C10. Theorems c10_* prove on a line-by-line model of selection.rs (selected = key-sorted, "
+LEVEL_TEXT = ("Session level (Props/C10Session.lean on the Session transition system): c10s_survives_refilter — only a selection action changes the selected set, whatever reader/matcher/heart-beat/query/command steps interleave; c10s_same_identity + c10s_positions_stable — a listed entry is keyed by its input position in the current command run and positions never move; tied by real multi-selection sessions whose traces the model must accept and whose selected keys it must predict after every loop iteration. Selection-set level: Theorems c10_* prove on a line-by-line model of selection.rs (selected = key-sorted, "
               "key-unique association list): toggle = symmetric difference with the cursor item's key, select-all = union and "
               "toggle-all = symmetric difference with the listed keys (parity law when an index is listed twice), deselect-all = "
               "empty, everything ignored in single mode and on an empty list, count = cardinality, accept order = ascending "
